@@ -18,6 +18,7 @@ import (
 	math "github.com/IBM/mathlib"
 
 	"github.com/IBM/TSS/mpc/bls"
+	"github.com/IBM/TSS/mpc/ps"
 	tss "github.com/IBM/TSS/types"
 )
 
@@ -36,6 +37,10 @@ type C05Cfg struct {
 	DeadlineMs int       `json:"deadlineMs"`
 	Enum       bool      `json:"enum"`
 	Concurrent bool      `json:"concurrent,omitempty"` // concurrent dispatch (used by C20)
+	// Direct wires the n backends to one another through the simulator without the orchestrator and the
+	// reliable-broadcast layer: the key generation protocol must also withstand the deviations that the
+	// layers above it would mask (duplicates, several messages of one kind, arbitrary order).
+	Direct bool `json:"direct,omitempty"`
 }
 
 var c05Deviations = []string{"none", "share-off", "reveal-mismatch", "consistent-off-poly", "equivocate-commit", "equivocate-reveal", "malformed", "duplicate", "early-reveal", "second-commit", "late-share", "withhold"}
@@ -78,6 +83,7 @@ func genC05(seed uint64, index int, tier string) C05Cfg {
 	}
 	c.MsgType = 1 + r.Intn(3)
 	c.Mutation = c05Mutations[r.Intn(len(c05Mutations))]
+	c.Direct = prng.Derive(seed, "direct").Bool(0.3)
 	return c
 }
 
@@ -431,6 +437,9 @@ func runC05(t *testing.T, spec RunSpec) *RunResult {
 	if dev == "malformed" || cfg.Deviation == "duplicate" || cfg.Deviation == "withhold" || cfg.Deviation == "malformed" {
 		dev += fmt.Sprintf(":type%d", cfg.MsgType)
 	}
+	if cfg.Direct {
+		mode = "backend-to-backend"
+	}
 	res.ConfigKey = fmt.Sprintf("%s n=%d t=%d %s %s", cfg.Deploy.Backend, cfg.N, cfg.T, mode, dev)
 	restore := seedCryptoRand(spec.Seed)
 	defer restore()
@@ -458,16 +467,66 @@ func runC05(t *testing.T, spec RunSpec) *RunResult {
 			d.mu.Unlock()
 			return p
 		}
-		d.Build()
 		lg = d.Log
-		adv := &c05Adversary{w: w, cfg: cfg, seed: spec.Seed, curve: PSCurve, topic: sha([]byte("DKG"))}
-		w.Filter = adv.Filter
-		sched, ss := scheduler(spec, cfg.Strategy)
+		dkgTopic := sha([]byte("DKG"))
 		deadline := time.Duration(cfg.DeadlineMs)*time.Millisecond + 19*time.Microsecond
 		st := &starter{}
-		for _, id := range cfg.Deploy.IDs {
-			st.add(fmt.Sprintf("start:kg:%d", id), id, 3, startKeyGen(d, id, cfg.N, cfg.T, deadline))
+		if cfg.Direct {
+			// backend-to-backend: the wire format of the orchestrator ([255] + protocol message) is kept so that the
+			// same adversary applies; the receiver classifies the message itself, as the orchestrator would
+			backends := map[uint16]tss.KeyGenerator{}
+			for _, id := range cfg.Deploy.IDs {
+				var kg tss.KeyGenerator
+				if cfg.Deploy.Backend == "bls" {
+					kg = &bls.TBLS{Logger: lg, Party: id}
+				} else {
+					kg = &ps.TPS{Logger: lg, Party: id, Curve: PSCurve, MessageLength: max(cfg.Deploy.PSMsgLen, 1)}
+				}
+				backends[id] = d.WrapKG(id, kg)
+			}
+			for _, id := range cfg.Deploy.IDs {
+				id := id
+				kg := backends[id]
+				send := w.SendFunc(id)
+				var others []uint16
+				for _, o := range cfg.Deploy.IDs {
+					if o != id {
+						others = append(others, o)
+					}
+				}
+				kg.Init(cfg.Deploy.IDs, cfg.T, func(msg []byte, isBroadcast bool, to uint16) {
+					data := append([]byte{255}, msg...)
+					if isBroadcast {
+						send(uint8(tss.MsgTypeMPC), dkgTopic, data, others...)
+					} else {
+						send(uint8(tss.MsgTypeMPC), dkgTopic, data, to)
+					}
+				})
+				w.AddNode(id, netsim.EndpointFunc(func(inc *tss.IncMessage) {
+					if len(inc.Data) < 1 {
+						return
+					}
+					payload := inc.Data[1:]
+					_, bcast, err := kg.ClassifyMsg(payload)
+					if err != nil {
+						return
+					}
+					kg.OnMsg(payload, inc.Source, bcast)
+				}))
+				st.add(fmt.Sprintf("start:kg:%d", id), id, 3, func() *netsim.Call {
+					ctx, _ := d.Ctx(deadline)
+					return w.StartCall("KeyGen", id, func() ([]byte, error) { return kg.KeyGen(ctx) })
+				})
+			}
+		} else {
+			d.Build()
+			for _, id := range cfg.Deploy.IDs {
+				st.add(fmt.Sprintf("start:kg:%d", id), id, 3, startKeyGen(d, id, cfg.N, cfg.T, deadline))
+			}
 		}
+		adv := &c05Adversary{w: w, cfg: cfg, seed: spec.Seed, curve: PSCurve, topic: dkgTopic}
+		w.Filter = adv.Filter
+		sched, ss := scheduler(spec, cfg.Strategy)
 		w.Propose = st.proposals
 		lim := netsim.RunLimits{MaxSteps: 80000, Horizon: deadline + 20*time.Second, FairAfterSteps: 5000, FairAfter: deadline / 2}
 		v := w.Run(sched, lim, func() bool { return st.allDone(w) && quiet(w) })
